@@ -249,6 +249,29 @@ def join(tokens, rng, wild):
     return "".join(out)
 
 
+CONTEXTS = ["f ( {} )", "( {} )", "{{ {} }}", "a [ {} ]", "a ~ {}", "f ( a , {} )", "f ( {} , a )",
+            "a + ( {} ) * a"]
+PUNCT = [",", ")", "(", "]", "[", "}", "{", "~", "=", "|", "a", "1", "+", "*", ":", "**", "<"]
+
+
+def damage(toks, rng):
+    """Delete, insert, duplicate or swap one token of a sentence."""
+    toks = list(toks)
+    k = rng.randrange(4)
+    i = rng.randrange(len(toks))
+    if k == 0 and len(toks) > 1:
+        del toks[i]
+    elif k == 1:
+        toks.insert(rng.randrange(len(toks) + 1), rng.choice(PUNCT))
+    elif k == 2:
+        toks.insert(i, toks[i])
+    elif i + 1 < len(toks):
+        toks[i], toks[i + 1] = toks[i + 1], toks[i]
+    else:
+        toks.append(rng.choice(PUNCT))
+    return toks
+
+
 # formula-language sentences for the "redundant parentheses never change the model" relation
 def gen_formula(rng, depth):
     atoms = ["a", "b", "c", "f(x)", "g"]
@@ -277,31 +300,41 @@ def reparen(s, rng):
 # ------------------------------------------------------------------------------------------------
 def explore(tier, seed, res=None, replay=None):
     res = res or Result()
-    res.rule = ("token strings over a 35-symbol alphabet enumerated up to a length bound, character "
-                "strings over a 30-character alphabet, random grammar trees pretty-printed with "
-                "minimal parentheses and random whitespace; non-trivial = scans into >= 2 tokens; "
-                "distinct by token sequence")
-    cases = []  # (kind, string, expected sexp or None)
-    if replay is not None:
-        cases = [("replay", replay["s"], replay.get("expected"))]
-    else:
+    res.rule = ("token strings over a 35-symbol alphabet enumerated up to a length bound, alone and "
+                "inside 8 bracketing contexts, character strings over a 30-character alphabet, "
+                "random grammar trees pretty-printed with minimal parentheses and random whitespace, "
+                "each also with one token deleted/inserted/duplicated/swapped; "
+                "the fully parenthesised form (Lean `groupAll`) of accepted inputs re-run through "
+                "the real scanner and parser; "
+                "non-trivial = scans into >= 2 tokens; distinct by token sequence")
+    def all_cases():
+      # (kind, string, expected sexp or None), produced lazily: the thorough tier has millions
+      if replay is not None:
+        yield ("replay", replay["s"], replay.get("expected"))
+      else:
         n_tok = 3 if tier == "quick" else 4
         for n in range(1, n_tok + 1):
             for combo in itertools.product(TOKEN_ALPHABET, repeat=n):
-                cases.append(("tok", " ".join(combo), None))
-        n_small = 5 if tier == "quick" else 6
+                yield (("tok", " ".join(combo), None))
+        n_small = 5
         for n in range(n_tok + 1, n_small + 1):
             for j, combo in enumerate(itertools.product(TOKEN_ALPHABET_SMALL, repeat=n)):
                 if tier == "quick" and n == 5 and (j + seed) % 8:
                     continue
-                cases.append(("tok", " ".join(combo), None))
+                yield (("tok", " ".join(combo), None))
+        # short token strings inside every bracketing context (call arguments, parentheses, braces,
+        # subset brackets, right of `~`): near-misses such as `f ( a , )`, `( a ) )`, `a [ a , ]`
+        n_ctx = 3 if tier == "quick" else 4
+        for ctx in CONTEXTS:
+            for n in range(0, n_ctx + 1):
+                for combo in itertools.product(TOKEN_ALPHABET_SMALL, repeat=n):
+                    yield (("ctx", ctx.format(" ".join(combo)), None))
         n_chr = 3 if tier == "quick" else 4
         for n in range(1, n_chr + 1):
             for combo in itertools.product(CHAR_ALPHABET, repeat=n):
-                cases.append(("chr", "".join(combo), None))
+                yield (("chr", "".join(combo), None))
         for combo in itertools.product(CHAR_ALPHABET_SMALL, repeat=n_chr + 1):
-            cases.append(("chr", "".join(combo), None))
-        res.exhaustive = True
+            yield (("chr", "".join(combo), None))
         rng = rng_for(seed, "c01", "gen")
         n_gen = 2000 if tier == "quick" else 50000
         depth = 8 if tier == "quick" else 14
@@ -310,63 +343,101 @@ def explore(tier, seed, res=None, replay=None):
             toks, sx = render(t, -1)
             if toks.count("~") > 1:
                 sx = "!reject"      # a second ~ must be refused
-            cases.append(("gen", join(toks, rng, wild=False), sx))
-            cases.append(("genws", join(toks, rng, wild=True), sx))
+            yield (("gen", join(toks, rng, wild=False), sx))
+            yield (("genws", join(toks, rng, wild=True), sx))
+            # one-token damage to a deep sentence: mostly strings that have to be refused
+            yield (("mut", " ".join(damage(toks, rng)), None))
 
-    # implementation
-    # generated sentences are scanned without the implicit `1 +` so that the expected tree is the
-    # generating tree; all other cases go through the default path
-    impl_out = [impl(s, want is None) for _, s, want in cases]
-    # model (regenerated table) and specification (documented table)
-    model_out = ask([{"op": "c01", "s": s, "noint": want is not None} for _, s, want in cases])
-
+    res.exhaustive = replay is None
     seen = set()
-    for (kind, s, want), io, mo in zip(cases, impl_out, model_out):
-        res.evaluations += 1
-        res.count("kind:" + kind)
-        m, sp = mo["model"], mo["spec"]
-        if m.get("err") == "scan:non_ascii":
-            res.count("skipped:non_ascii")
-            continue
-        res.traces += 1
-        case = {"s": s, "kind": kind}
-        # canonical views
-        i_view = (io.get("toks"), io.get("ast"), io.get("err"))
-        m_view = (m.get("toks"), m.get("ast"), (m.get("err") or "").split(":")[0] or None)
-        s_view = (sp.get("toks"), sp.get("ast"), (sp.get("err") or "").split(":")[0] or None)
-        if i_view != m_view:
-            res.mismatches.append({"case": case, "impl": io, "model": m})
-        why = None
-        if i_view != s_view:
-            if (io.get("ast") is None) != (sp.get("ast") is None):
-                why = "accepted/rejected differently from the documented grammar"
-            elif io.get("toks") != sp.get("toks"):
-                why = "token stream differs"
-            elif io.get("ast") != sp.get("ast"):
-                why = "tree differs from the documented precedence/associativity"
-            # same verdict, different stage of rejection: not a property failure
-        if io.get("ast") is not None and sp.get("yield_ok") is False:
-            why = "accepted although a token is not part of the tree"
-        if io.get("toks") is not None and not io.get("literals_ok", True):
-            why = "token literal does not equal the value of its lexeme"
-        if want == "!reject":
-            if io.get("ast") is not None:
-                why = "sentence with a second ~ accepted"
-        elif want is not None and io.get("ast") != want:
-            why = "generated sentence not parsed into its generating tree"
-        if why:
-            res.failures.append({"case": case, "impl": io, "expected": sp if want is None else want,
-                                 "why": why})
-        if io.get("toks") and len(io["toks"]) >= 2:
-            key = tuple(map(tuple, io["toks"]))
-            if key not in seen:
-                seen.add(key)
-                res.nontrivial.add(hash(key))
-        res.count("impl:" + ("accepted" if io.get("ast") else "rejected_" + io.get("err", "?")))
-        if len(res.samples) < 6 and kind in ("gen", "genws") and io.get("ast"):
-            res.samples.append({"s": s, "ast": io["ast"]})
-        elif len(res.samples) < 8 and kind == "tok" and res.evaluations % 9973 == 0:
-            res.samples.append({"s": s, "impl": io})
+    fp_cases = []
+
+    def judge(cases, collect_fp):
+        """Run implementation and model on `cases`, compare, evaluate the specification."""
+        # implementation
+        # generated sentences are scanned without the implicit `1 +` so that the expected tree is
+        # the generating tree; all other cases go through the default path
+        impl_out = [impl(s, want is None) for _, s, want in cases]
+        # model (regenerated table) and specification (documented table)
+        model_out = ask([{"op": "c01", "s": s, "noint": want is not None} for _, s, want in cases])
+        for (kind, s, want), io, mo in zip(cases, impl_out, model_out):
+            res.evaluations += 1
+            res.count("kind:" + kind)
+            m, sp = mo["model"], mo["spec"]
+            if m.get("err") == "scan:non_ascii":
+                res.count("skipped:non_ascii")
+                continue
+            res.traces += 1
+            case = {"s": s, "kind": kind}
+            if want is not None:
+                case["expected"] = want     # lets `--replay` take the same (no implicit `1 +`) path
+            # canonical views
+            i_view = (io.get("toks"), io.get("ast"), io.get("err"))
+            m_view = (m.get("toks"), m.get("ast"), (m.get("err") or "").split(":")[0] or None)
+            s_view = (sp.get("toks"), sp.get("ast"), (sp.get("err") or "").split(":")[0] or None)
+            if i_view != m_view:
+                res.mismatches.append({"case": case, "impl": io, "model": m})
+            why = None
+            if i_view != s_view:
+                if (io.get("ast") is None) != (sp.get("ast") is None):
+                    why = "accepted/rejected differently from the documented grammar"
+                elif io.get("toks") != sp.get("toks"):
+                    why = "token stream differs"
+                elif io.get("ast") != sp.get("ast"):
+                    why = "tree differs from the documented precedence/associativity"
+                # same verdict, different stage of rejection: not a property failure
+            if io.get("ast") is not None and sp.get("yield_ok") is False:
+                why = "accepted although a token is not part of the tree"
+            if io.get("toks") is not None and not io.get("literals_ok", True):
+                why = "token literal does not equal the value of its lexeme"
+            if want == "!reject":
+                if io.get("ast") is not None:
+                    why = "sentence with a second ~ accepted"
+            elif want is not None and io.get("ast") != want:
+                why = ("fully parenthesised form of an accepted formula not parsed into the "
+                       "parenthesised tree" if kind == "fp" else
+                       "generated sentence not parsed into its generating tree")
+            if sp.get("ast") is not None and sp.get("fp_ok") is not True:
+                # instance of theorem C01_fullparen on the reference parse; cannot happen while the
+                # Lean build is sound
+                why = "reference parse of the fully parenthesised form differs (C01_fullparen)"
+            if why:
+                res.failures.append({"case": case, "impl": io,
+                                     "expected": sp if want is None else want, "why": why})
+            if io.get("toks") and len(io["toks"]) >= 2:
+                res.nontrivial.add(hash(tuple(map(tuple, io["toks"]))))
+            res.count("impl:" + ("accepted" if io.get("ast") else "rejected_" + io.get("err", "?")))
+            if len(res.samples) < 6 and kind in ("gen", "genws") and io.get("ast"):
+                res.samples.append({"s": s, "ast": io["ast"]})
+            elif len(res.samples) < 8 and kind == "tok" and res.evaluations % 9973 == 0:
+                res.samples.append({"s": s, "impl": io})
+            elif len(res.samples) < 10 and kind == "fp" and res.evaluations % 997 == 0:
+                res.samples.append({"s": s, "ast": io.get("ast")})
+            # the fully parenthesised form of what the *reference* accepts goes through the real
+            # scanner and parser in a second round: it has to come back as `groupAll` of the tree
+            if collect_fp and sp.get("ast") is not None and sp.get("fp_src") is not None:
+                nfp[0] += 1
+                if kind in ("gen", "genws", "replay") or nfp[0] % fp_every == 0:
+                    fp_cases.append(("fp", sp["fp_src"], sp["fp_ast"]))
+
+    nfp = [0]
+    fp_every = 5 if tier == "quick" else 20
+    chunk = []
+    for c in all_cases():
+        chunk.append(c)
+        if len(chunk) >= 100000:
+            judge(chunk, collect_fp=True)
+            chunk = []
+            if fp_cases:
+                judge(fp_cases, collect_fp=False)
+                del fp_cases[:]
+            if len(res.failures) + len(res.mismatches) > 20000:
+                res.notes.append("stopped early: more than 20000 failing cases")
+                break
+    if chunk:
+        judge(chunk, collect_fp=True)
+    if fp_cases:
+        judge(fp_cases, collect_fp=False)
 
     if replay is None:
         # relation: redundant parentheses and whitespace never change the model description
